@@ -4,7 +4,7 @@ set_option linter.unusedSimpArgs false
 namespace PlinioVerif.Observers
 
 /-- everything but the RNG position and the incidental attributes -/
-def core (s : State) : Bool × Bool × Theta × Nat × Nat × Spec × Nat := obsStateExact s
+def core (s : State) : Bool × Bool × Bool × Bool × Theta × Nat × Nat × Spec × Nat := obsStateExact s
 
 /-- an observer call leaves everything but `rng` and `attrs` alone -/
 theorem step_observer_core (c : Cfg) (s : State) (op : Op) (h : op.isObserver = true) :
@@ -15,6 +15,7 @@ theorem step_observer_core (c : Cfg) (s : State) (op : Op) (h : op.isObserver = 
   | summary => rfl
   | cost => simp only [step, costStep]; split <;> rfl
   | getCost => simp only [step, costStep]; split <;> rfl
+  | getCostB => simp only [step, costStep]; split <;> rfl
   | setSpec k => simp [Op.isObserver] at h
   | forward => simp [Op.isObserver] at h
 
@@ -37,13 +38,14 @@ theorem run_observers_core (c : Cfg) (ops : List Op) (h : ∀ op ∈ ops, op.isO
 theorem observer_out_of_core (c : Cfg) (a b : State) (op : Op) (h : op.isObserver = true)
     (hab : core a = core b) : (step c a op).2 = (step c b op).2 := by
   simp only [core, obsStateExact, Prod.mk.injEq] at hab
-  obtain ⟨_, _, ht, ha, hp, hs, _⟩ := hab
+  obtain ⟨_, _, _, _, ht, ha, hp, hs, _⟩ := hab
   cases op with
   | exportNet => simp [step, exportStep, exportedStats, ha, hp]
   | exportNoBn => simp [step, exportStep, exportedStats, ha, hp]
   | summary => simp [step, ha]
   | cost => simp only [step, costStep, hs, ht, ha]; split <;> rfl
   | getCost => simp only [step, costStep, hs, ht, ha]; split <;> rfl
+  | getCostB => simp only [step, costStep, hs, ht, ha]; split <;> rfl
   | setSpec k => simp [Op.isObserver] at h
   | forward => simp [Op.isObserver] at h
 
@@ -67,7 +69,7 @@ the left one takes the step, the right one skips it when it is an observer -/
 theorem step_sim (c : Cfg) (a b : State) (op : Op) (h : obsState a = obsState b) :
     obsState (step c a op).1 = obsState (if op.isObserver then b else (step c b op).1) := by
   simp only [obsState, ObsState.mk.injEq] at h
-  obtain ⟨h1, h2, h3, h4, h5, h6, h7, h8⟩ := h
+  obtain ⟨h1, h2, hb, hd, h3, h4, h5, h6, h7, h8⟩ := h
   cases op with
   | exportNet => simp [step, exportStep, Op.isObserver, obsState, *]
   | exportNoBn => simp [step, exportStep, Op.isObserver, obsState, *]
@@ -78,10 +80,13 @@ theorem step_sim (c : Cfg) (a b : State) (op : Op) (h : obsState a = obsState b)
   | getCost =>
     simp only [step, costStep, Op.isObserver, if_true]
     split <;> simp [obsState, *]
+  | getCostB =>
+    simp only [step, costStep, Op.isObserver, if_true]
+    split <;> simp [obsState, *]
   | setSpec k => simp [step, Op.isObserver, obsState, *]
   | forward =>
     have hs := sample_obs c b.strain a.rng b.rng a.theta b.theta h3 h4
-    simp [step, forwardStep, Op.isObserver, obsState, h1, h2, h5, h6, h7, h8, hs.1, hs.2]
+    simp [step, forwardStep, Op.isObserver, obsState, h1, h2, hb, hd, h5, h6, h7, h8, hs.1, hs.2]
 
 theorem run_sim (c : Cfg) (ops : List Op) :
     ∀ a b, obsState a = obsState b →
@@ -132,17 +137,18 @@ theorem step_sim_exact (c : Cfg) (hnd : ∀ tr, sampleDraws c tr = false) (a b :
   · have ho' : op.isObserver = false := by simpa using ho
     simp only [ho']
     simp only [core, obsStateExact, Prod.mk.injEq] at h
-    obtain ⟨h1, h2, h3, h4, h5, h6, h7⟩ := h
+    obtain ⟨h1, h2, hb, hd, h3, h4, h5, h6, h7⟩ := h
     cases op with
     | exportNet => simp [Op.isObserver] at ho'
     | exportNoBn => simp [Op.isObserver] at ho'
     | summary => simp [Op.isObserver] at ho'
     | cost => simp [Op.isObserver] at ho'
     | getCost => simp [Op.isObserver] at ho'
+    | getCostB => simp [Op.isObserver] at ho'
     | setSpec k => simp [step, core, obsStateExact, *]
     | forward =>
       have := sample_nodraw c b.strain a.rng b.rng b.theta (hnd _)
-      simp [step, forwardStep, core, obsStateExact, h1, h2, h3, h4, h5, h6, h7, this]
+      simp [step, forwardStep, core, obsStateExact, h1, h2, hb, hd, h3, h4, h5, h6, h7, this]
 
 theorem run_sim_exact (c : Cfg) (hnd : ∀ tr, sampleDraws c tr = false) (ops : List Op) :
     ∀ a b, core a = core b →
